@@ -12,6 +12,7 @@ mod clock;
 mod driver;
 mod gen;
 mod lang;
+mod model;
 mod obs;
 mod prng;
 mod rules;
